@@ -531,6 +531,14 @@ def plan(tier, seed):
         if re.search(rb"mompass|\bread\b", t.src, re.I):
             continue
         cases.append({"gen": "corpus", "test": t.name, "extras": [0, 1, 2, 3] if thorough else [0, 1, 2]})
+    # golden programs stopped after a seeded number of lines: the state reached there must not leak into the next pass
+    for t in corpus.tests():
+        nl = t.src.count(b"\n")
+        if nl < 8 or nl > 8000 or re.search(rb"mompass|\bread\b", t.src, re.I):
+            continue
+        r = Rng(mix(seed, "c01cut", t.name))
+        for cutl in sorted(set(r.randint(4, nl) for _ in range(40 if thorough else 4))):
+            cases.append({"gen": "corpus", "test": t.name, "extras": [0, 1], "cut": cutl})
     # every probe followed by every state-setting statement, under forced extra passes
     npl = len(passleak_pairs())
     for lo in range(0, npl, 40):
@@ -575,6 +583,13 @@ def run_corpus(sim, case, acc):
     t = corpus.by_name(case["test"])
     extras = case["extras"]
     disk = local_disk(t, "/w/t")
+    cut = case.get("cut")
+    tname = t.name
+    if cut is not None:
+        # the program stops after `cut` lines: whatever state its statements have set by then is what the next pass meets
+        disk = dict(disk)
+        disk["/w/t/%s.asm" % t.name] = b"\n".join(t.src.split(b"\n")[:cut]) + b"\n"
+        tname = "%s@%d" % (t.name, cut)
     vio = []
     res = {}
     for e in extras:
@@ -588,7 +603,7 @@ def run_corpus(sim, case, acc):
         acc["runs"] += 1
         acc["sim_us"] += r.sim_us
         acc["shapes"].add(r.hash)
-        acc["keys"].append((int(chash([t.name, e]), 16), 1 if e else 0))
+        acc["keys"].append((int(chash([tname, e]), 16), 1 if e else 0))
         if e:
             acc["faults"]["extra_pass"] = acc["faults"].get("extra_pass", 0) + e
         cls = oracle.classify("asl", r, san, allow_exit97=True)
@@ -596,14 +611,14 @@ def run_corpus(sim, case, acc):
             acc["stats"]["not_judged_budget"] = acc["stats"].get("not_judged_budget", 0) + 1
             continue
         if cls:
-            vio.append(("C01/abnormal/" + cls, "%s: %s" % (t.name, r.outcome)))
+            vio.append(("C01/abnormal/" + cls, "%s: %s" % (tname, r.outcome)))
             continue
         tr = pass_trace(r)
         if r.kind == 0 and r.code == 97:
             period = judge_termination(r, tr)
             if period:
-                vio.append(("C01/livelock/golden/%s" % t.name, "%s with %d forced extra pass(es): pass cap reached, symbol state repeats with period %d"
-                            % (t.name, e, period)))
+                vio.append(("C01/livelock/golden/%s" % tname, "%s with %d forced extra pass(es): pass cap reached, symbol state repeats with period %d"
+                            % (tname, e, period)))
             else:
                 acc["probes"]["cap_hit_inconclusive"] = acc["probes"].get("cap_hit_inconclusive", 0) + 1
             continue
@@ -615,18 +630,20 @@ def run_corpus(sim, case, acc):
                 continue
             o, p, m, err = res[e]
             if o != "exit:0" or p is None:
-                vio.append(("C01/extra-pass-fails/golden/%s" % t.name, "%s assembles, but fails when %d further pass(es) are run: %r" % (t.name, e, err)))
+                vio.append(("C01/extra-pass-fails/golden/%s" % tname, "%s assembles, but fails when %d further pass(es) are run: %r" % (tname, e, err)))
             elif p != base[1]:
-                vio.append(("C01/extra-pass-changes-code/golden/%s" % t.name, "%s: code file changes under %d forced extra pass(es) (%d vs %d bytes)" % (t.name, e, len(p), len(base[1]))))
+                vio.append(("C01/extra-pass-changes-code/golden/%s" % tname, "%s: code file changes under %d forced extra pass(es) (%d vs %d bytes)" % (tname, e, len(p), len(base[1]))))
             elif m != base[2]:
-                vio.append(("C01/extra-pass-changes-symbols/golden/%s" % t.name, "%s: MAP symbol section changes under %d forced extra pass(es)" % (t.name, e)))
+                vio.append(("C01/extra-pass-changes-symbols/golden/%s" % tname, "%s: MAP symbol section changes under %d forced extra pass(es)" % (tname, e)))
     seen = {}
     for c, d in vio:
         seen.setdefault(c, d)
     ec = {"kind": "corpus-explicit", "test": t.name, "extras": extras}
+    if cut is not None:
+        ec["cut"] = cut
     return {"violations": [{"class": c, "detail": d, "case": ec} for c, d in seen.items()], "case": ec, "runs": acc["runs"], "sim_us": acc["sim_us"],
             "shapes": sorted(acc["shapes"]), "keys": acc["keys"], "stats": acc["stats"], "faults": acc["faults"], "probes": acc["probes"],
-            "sample": {"golden": t.name, "extra_passes": extras}, "digest": None}
+            "sample": {"golden": tname, "extra_passes": extras}, "digest": None}
 
 
 # ------------------------------------------------------------------ state set late in the file vs. the next pass
